@@ -73,7 +73,7 @@ def reseat_bpm_changes_snap(
                 offsets.insert(i + 1, offset)
 
         # Extend case, see docstring
-        elif 0 < beat_diff_rem <= extend_threshold:
+        elif 0 < beat_diff_rem <= extend_threshold and beat_diff_quo % bcs_0.metronome:
             # Check if it's possible to extend by changing metronome
             metronome = beat_diff_quo % bcs_0.metronome
             bcs = BpmChangeSnap(
